@@ -26,7 +26,18 @@ func init() {
 	register("producer", &component{gen: genProducer, exec: execProducer})
 }
 
-var safeStrs = []string{"a", "b", "E_CODE", "bad-thing", "x.y", "code:1", "~", "timeout", "ES_INDEX_ERROR", "m1", "hello_world"}
+var safeStrs = []string{"a", "b", "E_CODE", "bad-thing", "x.y", "code:1", "~", "timeout", "ES_INDEX_ERROR", "m1", "hello_world",
+	"^0", "^e", "^b", "^v", "^u", "^q"}
+
+// ctlStrs: texts with characters that JSON must escape (written as ^x tokens in the protocol; the Lean driver has the same table)
+var ctlStrs = map[string]string{"^0": "a\x00b", "^e": "\x1b[0m", "^b": "x\x07", "^v": "\x0b\x7f", "^u": "\u2028\U000E0001", "^q": "say \"hi\" \\ <&>"}
+
+func untok(s string) string {
+	if v, ok := ctlStrs[s]; ok {
+		return v
+	}
+	return untilde(s)
+}
 
 func genProducer(r *rng, n int, tier string, emit func(string)) {
 	for _, c := range []string{
@@ -57,7 +68,7 @@ func genProducer(r *rng, n int, tier string, emit func(string)) {
 				if r.chance(2) {
 					vs = fmt.Sprintf("*%d", r.pick(1000001, 1500000, 3000000)) // a large payload, written as *<length> (bytes 0xab)
 				}
-				ops = append(ops, fmt.Sprintf("req %s %s", r.pickS("~", "~", "o1", "o2", "o3"), vs))
+				ops = append(ops, fmt.Sprintf("req %s %s", r.pickS("~", "~", "o1", "o2", "o3", "audit-events", "a.b_c", "T-1"), vs))
 			case x < 52:
 				ops = append(ops, "other")
 			default:
@@ -148,7 +159,7 @@ func execProducer(input string) string {
 			if len(f) != 7 {
 				return "bad-input"
 			}
-			a, b, c := untilde(f[4]), untilde(f[5]), untilde(f[6])
+			a, b, c := untok(f[4]), untok(f[5]), untok(f[6])
 			var e error
 			switch f[3] {
 			case "plain":
